@@ -39,11 +39,43 @@ def is_num_like(x):
     return isinstance(x, (int, float, I, R)) and not isinstance(x, bool)
 
 
+class Outcome(Exception):
+    """the call ended the way a directive dictates (lock timeout / injected fault / kill): the directive's own
+    clauses replace the functional specification"""
+
+    def __init__(self, clauses):
+        self.clauses = clauses
+
+
+def directive_aware(fn):
+    import functools
+
+    @functools.wraps(fn)
+    def wrapped(w, P):
+        try:
+            return fn(w, P)
+        except Outcome as o:
+            flag('nontrivial')
+            return o.clauses
+    return wrapped
+
+
+def accepts_retry(fn):
+    import inspect
+    try:
+        return 'retry' in inspect.signature(fn).parameters
+    except (TypeError, ValueError):
+        return False
+
+
 class Ctx:
     """one scenario + the bookkeeping every obligation needs"""
 
     def __init__(self, w, P, **kw):
         self.w, self.P = w, P
+        self.opkeys = []
+        if P.get('crash') or P.get('no_cull'):
+            kw.setdefault('cull_limit', 0 if P.get('no_cull') else None)
         kw.setdefault('statistics', P.get('statistics', False))
         self.s = scn_mod.Scn(w, P['N'], policy=P.get('policy', 'least-recently-stored'),
                              kinds=P.get('kinds', scn_mod.KINDS), **kw)
@@ -54,6 +86,7 @@ class Ctx:
 
     def key(self, name='key'):
         k = self.s.v_int(name, -2 ** 63, 2 ** 63 - 1)
+        self.opkeys.append((Cell(INT, k.z), Cell(INT, 1)))
         return k, Cell(INT, k.z), Cell(INT, 1)
 
     def opt_real(self, name):
@@ -78,14 +111,131 @@ class Ctx:
         return self.T1
 
     def call(self, fn, *a, expect=(), **k):
-        """run fn; returns ('ok', value) or ('exc', exception) for expected exception types"""
+        """run fn; returns ('ok', value) or ('exc', exception) for expected exception types.
+        Directives (P['busy'] / P['fault'] / P['crash']) are armed here; when the call ends the way the
+        directive dictates, Outcome carries the directive's clauses."""
+        P, w = self.P, self.w
+        core = w.L.core
+        if 'retry' in P and accepts_retry(fn):
+            k['retry'] = P['retry']
+        if P.get('busy'):
+            self.arm_busy()
+        if P.get('fault'):
+            w.fault_at = self.s.v_int('fault_at', 0, P.get('max_events', 30))
+        if P.get('crash'):
+            w.crash_at = self.s.v_int('crash_at', 0, P.get('max_events', 30))
         self.begin()
         try:
-            r = ('ok', fn(*a, **k))
+            if P.get('crash') and w.is_real:
+                r = self.real_crash_call(fn, a, k, expect)
+            else:
+                r = ('ok', fn(*a, **k))
+        except core.Timeout as e:
+            self.end()
+            if P.get('fault'):
+                flag('fault_escaped')
+                raise Outcome(self.fault_clauses(e))
+            if not P.get('busy'):
+                raise
+            raise Outcome(self.timeout_clauses(e))
+        except env.Crash:
+            w.recover()
+            self.end()
+            raise Outcome(self.crash_clauses())
         except expect as e:
             r = ('exc', e)
+        except (w.sqlite3.OperationalError, OSError) as e:
+            if P.get('fault') and 'injected' in str(e):
+                self.end()
+                flag('fault_escaped')
+                raise Outcome(self.fault_clauses(e))
+            raise
         self.end()
+        if P.get('crash') and r[0] == 'crashed':
+            raise Outcome(self.crash_clauses())
+        if P.get('busy') and not P.get('retry') and self.busy_attempts[0] > 0 and self.P['busy'] != 'later':
+            # the lock was busy on the first attempt and retry was not requested: the call must not have succeeded
+            self.add('C14', 'a call that met a busy lock without retry raises Timeout', False)
         return r
+
+    # ---- busy lock (C14)
+    def arm_busy(self):
+        w = self.w
+        self.busy_attempts = [0]
+        if self.P['busy'] == 'always':
+            hook = lambda con: (self.busy_attempts.__setitem__(0, self.busy_attempts[0] + 1) or True)
+        else:
+            kmax = self.P.get('busy_max', 2)
+            kk = self.s.v_int('busy_k', 1, kmax)
+
+            def hook(con):
+                self.busy_attempts[0] += 1
+                flag('lock_busy')
+                return bool(kk >= self.busy_attempts[0])
+        w.set_busy_hook(self.c, hook)
+
+    def timeout_clauses(self, e):
+        flag('timeout_raised')
+        cl = [('C14', 'Timeout only when retry was not requested', not self.P.get('retry')),
+              ('C14,C08', 'a timed-out call has no effect on the items', And(unchanged(self.T0, self.T1), spec.same_count(self.T0, self.T1))),
+              ('C14,C08', 'a timed-out call leaves no value file behind and the counters intact',
+               And(state.inv_table(self.T1), self.s.fs_inv(self.T1)))]
+        if self.P.get('bulk'):
+            cl.append(('C14', 'bulk removal reports the number already removed', len(e.args) == 1 and e.args[0] == 0))
+        return cl
+
+    # ---- injected fault (C08)
+    def fault_clauses(self, e):
+        return [('C08', 'after a failed call the counters match the rows', state.inv_table(self.T1)),
+                ('C08', 'after a failed call every row has its file and no value file is unreferenced', self.s.fs_inv(self.T1))]
+
+    # ---- kill (C07)
+    def crash_clauses(self):
+        flag('crashed')
+        w = self.w
+        Tr = self.T1
+        T0 = self.T0
+        cl = [('C07', 'after a kill the counters match the committed rows', state.inv_table(Tr)),
+              ('C07', 'after a kill every committed row that names a file names a complete file of the recorded size', self.s.fs_inv(Tr, allow_orphans=True))]
+        conj = []
+        for it in Tr.items:
+            if it.present is False:
+                continue
+            is_op = OrL(And(cell_eq(it.c['key'], kc), cell_eq(it.c['raw'], rc)) for kc, rc in self.opkeys)
+            o = T0.lookup(it.c['key'], it.c['raw'])
+            conj.append(Implies(And(it.present, Not(is_op), o.present), same_cols(o, it, CACHE_COLS)))
+        cl.append(('C07', 'after a kill every previously committed item not addressed by the interrupted call is exactly as before (or gone)', AndL(conj)))
+        # the directory stays usable: a fresh handle can read and write
+        try:
+            h = w.clone_handle(self.c)
+            h.cull_limit = 0
+            n = h.__len__()
+            ok = And(h.set(123456789, 1) is True, EqR(zv(h.get(123456789)), 1))
+            cl.append(('C07', 'after a kill another process can still read and write', ok))
+        except Exception as e2:
+            cl.append(('C07', 'after a kill another process can still read and write (%s: %s)' % (type(e2).__name__, e2), False))
+        return cl
+
+    def real_crash_call(self, fn, a, k, expect):
+        """real backend: run the call in a forked child that SIGKILLs itself at the recorded event"""
+        import os
+        w = self.w
+        pid = os.fork()
+        if pid == 0:
+            try:
+                w.stop_events()
+                w.pid += 1  # the child is another process: diskcache reopens its connection (not part of the call)
+                self.c._con
+                w.in_child = True
+                w.start_events()
+                try:
+                    fn(*a, **k)
+                except BaseException:
+                    pass
+            finally:
+                os._exit(0)
+        os.waitpid(pid, 0)
+        return ('crashed', None)
 
     def add(self, tags, label, f):
         self.cl.append((tags, label, f))
@@ -147,6 +297,7 @@ def expiry_case(x, old, now, ret_live):
 
 # ------------------------------------------------------------------ writes
 
+@directive_aware
 def ob_set(w, P):
     x = Ctx(w, P)
     c = x.c
@@ -174,6 +325,7 @@ def clause_tags(lab):
     return 'C03'
 
 
+@directive_aware
 def ob_set_file(w, P):
     """set of a value stored in a file (bytes >= disk_min_file_size) over inline and file-backed rows"""
     x = Ctx(w, P, min_file_size=0)
@@ -201,6 +353,7 @@ def ob_set_file(w, P):
     return x.result()
 
 
+@directive_aware
 def ob_add(w, P):
     x = Ctx(w, P)
     c = x.c
@@ -227,6 +380,7 @@ def ob_add(w, P):
     return x.result()
 
 
+@directive_aware
 def ob_add_file(w, P):
     """add of a file-backed value: a refused add must not leave its value file behind (C08)"""
     x = Ctx(w, P, min_file_size=0)
@@ -245,6 +399,7 @@ def ob_add_file(w, P):
     return x.result()
 
 
+@directive_aware
 def ob_touch(w, P):
     x = Ctx(w, P)
     c = x.c
@@ -269,6 +424,7 @@ def ob_touch(w, P):
     return x.result()
 
 
+@directive_aware
 def ob_incr(w, P):
     x = Ctx(w, P)
     c = x.c
@@ -319,6 +475,7 @@ def ob_incr(w, P):
 
 # ------------------------------------------------------------------ reads
 
+@directive_aware
 def ob_get(w, P):
     x = Ctx(w, P)
     c = x.c
@@ -364,6 +521,7 @@ def ob_get(w, P):
     return x.result()
 
 
+@directive_aware
 def ob_getitem(w, P):
     x = Ctx(w, P)
     c = x.c
@@ -384,6 +542,7 @@ def ob_getitem(w, P):
     return x.result()
 
 
+@directive_aware
 def ob_contains(w, P):
     x = Ctx(w, P)
     c = x.c
@@ -416,6 +575,7 @@ def removed_exactly(T0, T1, pred):
     return AndL(conj), Count(n_removed)
 
 
+@directive_aware
 def ob_pop(w, P):
     x = Ctx(w, P)
     c = x.c
@@ -445,6 +605,7 @@ def ob_pop(w, P):
     return x.result()
 
 
+@directive_aware
 def ob_delete(w, P):
     x = Ctx(w, P)
     c = x.c
@@ -468,6 +629,7 @@ def ob_delete(w, P):
     return x.result()
 
 
+@directive_aware
 def ob_clear(w, P):
     x = Ctx(w, P, sym_cfg=False)
     c = x.c
@@ -478,6 +640,7 @@ def ob_clear(w, P):
     return x.result()
 
 
+@directive_aware
 def ob_evict(w, P):
     x = Ctx(w, P, sym_cfg=False)
     c = x.c
@@ -491,6 +654,7 @@ def ob_evict(w, P):
     return x.result()
 
 
+@directive_aware
 def ob_expire(w, P):
     x = Ctx(w, P, sym_cfg=False, expire_pos=P.get('expire_pos', True))
     c = x.c
@@ -508,6 +672,7 @@ def ob_expire(w, P):
     return x.result()
 
 
+@directive_aware
 def ob_cull(w, P):
     """explicit cull(): expired first, then policy victims until volume <= size_limit or empty; returns the count"""
     x = Ctx(w, P)
@@ -579,6 +744,7 @@ def by_key(a, b):
     return Or(cell_lt(a.c['key'], b.c['key']), And(cell_eq(a.c['key'], b.c['key']), LtR(a.c['raw'].num, b.c['raw'].num)))
 
 
+@directive_aware
 def ob_len(w, P):
     x = Ctx(w, P, sym_cfg=False)
     st, ret = x.call(x.c.__len__)
@@ -587,6 +753,7 @@ def ob_len(w, P):
     return x.result()
 
 
+@directive_aware
 def ob_iter(w, P):
     x = Ctx(w, P, sym_cfg=False)
     c = x.c
@@ -604,6 +771,7 @@ def ob_iter(w, P):
     return x.result()
 
 
+@directive_aware
 def ob_peekitem(w, P):
     x = Ctx(w, P, sym_cfg=False)
     c = x.c
@@ -638,6 +806,7 @@ def ob_peekitem(w, P):
     return x.result()
 
 
+@directive_aware
 def ob_stats(w, P):
     x = Ctx(w, P, sym_cfg=False, statistics='sym')
     c = x.c
@@ -652,6 +821,7 @@ def ob_stats(w, P):
     return x.result()
 
 
+@directive_aware
 def ob_volume(w, P):
     x = Ctx(w, P, sym_cfg=False)
     st, ret = x.call(x.c.volume)
@@ -738,6 +908,36 @@ def jobs(tier):
         add('ob_peekitem', N=N, last=False)
         add('ob_stats', N=N)
         add('ob_volume', N=N)
+    # ---- directives: busy lock (C14), injected fault (C08), kill (C07)
+    NB = 2
+    for func in ('ob_set', 'ob_set_file', 'ob_add', 'ob_add_file', 'ob_touch', 'ob_incr', 'ob_pop', 'ob_delete'):
+        out.append(dict(id=func[3:] + '.busy.noretry', func=func, params=dict(N=NB, busy=1), tags=['C14', 'C08'], functions=FUNCS[func] + ['core.Cache._transact'],
+                        weight=2, must_reach=['timeout_raised']))
+        out.append(dict(id=func[3:] + '.busy.retry', func=func, params=dict(N=NB, busy=1, retry=True), tags=['C14'], functions=FUNCS[func] + ['core.Cache._transact'],
+                        weight=20, must_reach=['lock_busy']))
+    for func in ('ob_clear', 'ob_evict', 'ob_expire'):
+        out.append(dict(id=func[3:] + '.busy.noretry', func=func, params=dict(N=NB, busy=1, bulk=True, page=1), tags=['C14', 'C08'], functions=FUNCS[func],
+                        weight=2, must_reach=['timeout_raised']))
+        out.append(dict(id=func[3:] + '.busy.retry', func=func, params=dict(N=NB, busy=1, retry=True, page=1), tags=['C14'], functions=FUNCS[func],
+                        weight=5, must_reach=['lock_busy']))
+    for pol in ('least-recently-stored', 'none'):
+        out.append(dict(id='cull.busy.noretry.' + SHORT[pol], func='ob_cull', params=dict(N=NB, busy=1, bulk=True, policy=pol), tags=['C14', 'C08'], functions=FUNCS['ob_cull'],
+                        weight=2, must_reach=['timeout_raised']))
+        out.append(dict(id='cull.busy.retry.' + SHORT[pol], func='ob_cull', params=dict(N=NB, busy=1, retry=True, policy=pol), tags=['C14', 'C09'], functions=FUNCS['ob_cull'],
+                        weight=5, must_reach=['lock_busy']))
+    for pol, stats in (('least-recently-used', False), ('least-recently-stored', True)):
+        out.append(dict(id='get.busy.noretry.%s.%s' % (SHORT[pol], stats), func='ob_get', params=dict(N=NB, busy=1, policy=pol, statistics=stats), tags=['C14'],
+                        functions=FUNCS['ob_get'], weight=2, must_reach=['timeout_raised']))
+        out.append(dict(id='get.busy.retry.%s.%s' % (SHORT[pol], stats), func='ob_get', params=dict(N=NB, busy=1, retry=True, policy=pol, statistics=stats), tags=['C14'],
+                        functions=FUNCS['ob_get'], weight=2, must_reach=['lock_busy']))
+    for func, extra in (('ob_get', {}), ('ob_getitem', {'via': 'getitem'}), ('ob_contains', {}), ('ob_len', {}), ('ob_iter', {'how': 'iter'}), ('ob_iter', {'how': 'iterkeys'})):
+        out.append(dict(id=func[3:] + '.lockfree.' + '.'.join(extra.values()), func=func, params=dict(N=NB, busy='always', **extra), tags=['C14'], functions=FUNCS[func], weight=1))
+    for func in ('ob_set', 'ob_set_file', 'ob_add_file', 'ob_incr', 'ob_pop', 'ob_delete', 'ob_touch', 'ob_clear', 'ob_expire'):
+        out.append(dict(id=func[3:] + '.fault', func=func, params=dict(N=NB, fault=True, page=1), tags=['C08'], functions=FUNCS[func] + ['core.Cache._transact'],
+                        weight=30, must_reach=['fault_escaped']))
+    for func in ('ob_set', 'ob_set_file', 'ob_add_file', 'ob_incr', 'ob_pop', 'ob_delete', 'ob_touch', 'ob_clear', 'ob_expire', 'ob_evict', 'ob_cull'):
+        out.append(dict(id=func[3:] + '.kill', func=func, params=dict(N=NB, crash=True, page=1), tags=['C07'], functions=FUNCS[func] + ['core.Cache._transact'],
+                        weight=60, must_reach=['crashed']))
     for N in big:
         add('ob_set', weight=N ** 3, N=N, policy='least-recently-stored')
         add('ob_set', weight=N ** 3, N=N, policy='least-frequently-used')
